@@ -315,7 +315,7 @@ def run(argv):
                               f"RenormAbundance has no statement for {unfactored[:4]}: every species needs its own factor "
                               f"(the electron's being 1.0)", input=show)
                 break
-            ok = helpers_check(chk, rd, path, truth, show, kind) and oracle(chk, rng, rd, elems, mpoly, fpoly, truth, show, kind, b)
+            ok = helpers_check(chk, rd, path, truth, show, kind) and oracle(chk, rng, rd, elems, mpoly, fpoly, truth, show, kind, b, ftext=fac)
             if ok and b == "dense":
                 # model request from naunet's own counts / masses (previous stage)
                 sp = net.species
@@ -369,11 +369,26 @@ def run(argv):
     return chk.finish()
 
 
-def oracle(chk, rng, rd, elems, mpoly, fpoly, truth, show, kind, backend):
-    """exact check of the property statement on the parsed code"""
+def oracle(chk, rng, rd, elems, mpoly, fpoly, truth, show, kind, backend, ftext=None):
+    """exact check of the property statement on the parsed code (`ftext`: the factor statements as emitted; they are evaluated
+    exactly, whatever their shape - a polynomial or something piecewise)"""
+    from .poly import eval_exact
     aliases = [k for k in rd.idx if k != "IDX_TGAS"]
-    for trial in range(2):
+    fast = {a: cparse.parse_expr(t) for a, t in (ftext or {}).items()}
+
+    def factor_value(a, env):
+        if a in fast:
+            return eval_exact(fast[a], env)
+        return fpoly[a].eval(env)
+    for trial in range(3):
         y = {a: Fraction(rng.randint(1, 99), rng.randint(1, 50)) for a in aliases}
+        if trial == 2:
+            # the heavy elements locked in molecules (atoms rare) and a reference that pulls them apart: the exact solution then
+            # needs multipliers of both signs
+            for a in aliases:
+                sp = truth.get(a[4:])
+                heavy = 0 if sp is None else sum(1 for el, _ in sp.comp if el != "H")
+                y[a] = Fraction(rng.randint(40, 99)) if heavy >= 2 else Fraction(1, rng.randint(20, 60))
         env = {f"ab[{a}]": v for a, v in y.items()}
 
         def total(el, vec):
@@ -400,7 +415,9 @@ def oracle(chk, rng, rd, elems, mpoly, fpoly, truth, show, kind, backend):
             return True
         renv = {f"rptr[{e}]": v for e, v in zip(elems, r)}
         try:
-            newy = {a: fpoly[a].eval({**renv, f"ab[{a}]": y[a]}) for a in aliases}
+            newy = {a: factor_value(a, {**renv, f"ab[{a}]": y[a]}) for a in aliases}
+            if any(v < 0 for v in r):
+                chk.hist["negative-multiplier"] += 1
         except ZeroDivisionError:
             chk.violation({"kind": "division-by-zero", "net": kind, "zero_mass_species": ["factor"]}, "factor divides by zero", input=show)
             return False
@@ -424,7 +441,7 @@ def oracle(chk, rng, rd, elems, mpoly, fpoly, truth, show, kind, backend):
             r1 = solve_exact(A, [cur[e] for e in elems])
             if r1 is not None:
                 renv1 = {f"rptr[{e}]": v for e, v in zip(elems, r1)}
-                if any(fpoly[a].eval({**renv1, f"ab[{a}]": y[a]}) != y[a] for a in aliases):
+                if any(factor_value(a, {**renv1, f"ab[{a}]": y[a]}) != y[a] for a in aliases):
                     chk.violation({"kind": "not-identity", "net": kind}, "ratios already match but the factors are not 1", input=show)
                     return False
     return True
